@@ -298,7 +298,8 @@ def judge_write(ctx, args, kwargs, result, exc, pre):
             if not pos_ok(r, fb):
                 return ctx.violate("C05", "bms.write", "time_on_grid" if r[1] else "time_off_grid",
                                    f"hit on column {col} at beat {float(b)} written at beat {float(fb)}", wit, feat)
-            if exact_bpm and r[1] and not close(ftl.ms_of_beat(fb), tl.ms_of_beat(b)):
+            # same grid position in both timelines (b itself may sit up to 1e-7 beat off its grid point)
+            if exact_bpm and r[1] and not close(ftl.ms_of_beat(fb), tl.ms_of_beat(r[2])):
                 return ctx.violate("C05", "bms.write", "time_on_grid",
                                    f"hit on column {col}: memory {float(tl.ms_of_beat(b))} ms, file {float(ftl.ms_of_beat(fb))} ms", wit, feat)
             if s in known and fs != s:
